@@ -198,9 +198,14 @@ class LeanResult:
         return bool(self.obligations) and len(self.obligations) == len(self.discharged) and not self.broken
 
 
-def lean_check(prop_module: str, extra_targets: list[str] = (), timeout: int = 1500) -> LeanResult:
-    """build the property module (and drivers), audit its theorems"""
+def lean_check(prop_module: str, extra_targets: list[str] = (), timeout: int = 1500,
+               recheck: Optional[bool] = None) -> LeanResult:
+    """build the property module (and drivers), audit its theorems.
+    recheck (default: on in the thorough tier): also run `leanchecker`, the toolchain's independent
+    re-checker of the compiled .olean, on the property module."""
     res = LeanResult()
+    if recheck is None:
+        recheck = os.environ.get("VERIF_TIER_EFFECTIVE", "") == "thorough"
     targets = [prop_module, *extra_targets]
     res.checker_cmd = (f"cd lean && lake build {' '.join(targets)} && lake env lean Audit/"
                        f"{prop_module.split('.')[-1]}.lean  # #print axioms on every theorem; "
@@ -226,6 +231,12 @@ def lean_check(prop_module: str, extra_targets: list[str] = (), timeout: int = 1
         rc, out = _run(["lake", "env", "lean", str(audit.relative_to(LEAN))], LEAN, timeout)
     if rc != 0:
         raise MachineryError("axiom audit failed to run:\n" + out[-2000:])
+    if recheck:
+        with _Lock():
+            rc2, out2 = _run(["lake", "env", "leanchecker", prop_module], LEAN, timeout)
+        if rc2 != 0:
+            raise MachineryError(f"leanchecker rejected {prop_module}:\n" + out2[-2000:])
+        res.checker_cmd += f" && lake env leanchecker {prop_module}"
     for m in re.finditer(r"'([^']+)' depends on axioms: \[([^\]]*)\]", out.replace("\n", " ")):
         res.axioms[m.group(1)] = [a.strip() for a in m.group(2).split(",") if a.strip()]
     for m in re.finditer(r"'([^']+)' does not depend on any axioms", out):
@@ -283,6 +294,7 @@ def load_known() -> list[dict]:
 class Run:
     def __init__(self, pid: str, tier: str, level: str):
         self.pid, self.tier, self.level = pid, tier, level
+        os.environ["VERIF_TIER_EFFECTIVE"] = tier
         self.seed = seed_of_env()
         self.t0 = time.time()
         self.violations: list[dict] = []
